@@ -21,7 +21,7 @@ PROFILES = ['dev']
 REPLAY_PROFILES = ['dev', 'release']
 BUDGET = 200
 FIRST_BUDGET = 400
-TIME_LIMIT = {'quick': 420, 'thorough': 3000}
+TIME_LIMIT = {'quick': 900, 'thorough': 3000}
 
 def jobs(tier, seed, report):
     report.bounds = {'powers': '[-3,3] without 0, symbolic', 'shapes': 'quick: 1 vs 1 over all unit pairs, 2 vs 1 and 2 vs 2 (sampled) over the 14-unit basis; thorough: 2 vs 1 over all units x basis, 2 vs 2 over the whole basis',
